@@ -1459,6 +1459,14 @@ private:
    */
   QUILL_ATTRIBUTE_HOT void _cleanup_invalidated_loggers()
   {
+    if (_logger_manager.has_invalidated_loggers())
+    {
+      // A logger that is erased below takes the last path to its sinks with it when the user still
+      // holds them: nothing would flush what was already written to them, neither a later
+      // flush_log() nor the periodic flush. Flush while the logger is still reachable.
+      _flush_and_run_active_sinks(false, std::chrono::milliseconds{0});
+    }
+
     // since there are no messages we can check for invalidated loggers and clean them up
     std::vector<std::string> const removed_loggers = _logger_manager.cleanup_invalidated_loggers(
       [this]()
